@@ -20,11 +20,13 @@ Section Gc.
     Variable a : addr.
     Variable s0 : state.                                     (* store at the start of the loop *)
     Variable P : cistate -> list (gckey * N) -> Prop.
-    Hypothesis P_skip : forall c k g rest, P c ((k, g) :: rest) ->
-      trav cat s0 (snd k) = None \/ mem_addr (snd k) (s_dirty s0) = true -> P c rest.
+    Hypothesis P_none : forall c k g rest, P c ((k, g) :: rest) -> trav cat s0 (snd k) = None -> P c rest.
+    Hypothesis P_dirty : forall c k g rest sh, P c ((k, g) :: rest) ->
+      trav cat s0 (snd k) = Some sh -> mem_addr (snd k) (s_dirty s0) = true -> P (register_ci c (snd k) sh) rest.
     Hypothesis P_evict : forall c k g rest sh, P c ((k, g) :: rest) ->
       trav cat s0 (snd k) = Some sh -> mem_addr (snd k) (s_dirty s0) = false ->
-      ~ In a (map fst (unrepeat c sh)) /\ P (del_root_cid c (snd k) sh) rest.
+      ~ In a (map fst (unrepeat (register_ci c (snd k) sh) sh)) /\
+      P (del_root_cid (register_ci c (snd k) sh) (snd k) sh) rest.
 
     Lemma evict_loop cands : forall s c b n recycled s1 c1 b1 n1 rec1,
       gc_evict_ci cat s c b n cands recycled = (s1, c1, b1, n1, rec1) ->
@@ -37,20 +39,19 @@ Section Gc.
       induction cands as [|[k g] rest IH]; intros s c b n recycled s1 c1 b1 n1 rec1 H Hd Hy HP; simpl in H.
       - inversion H; subst. repeat split; auto. exists []. now rewrite app_nil_r.
       - assert (Et : trav cat s (snd k) = trav cat s0 (snd k)) by now apply trav_data.
-        assert (W : trav cat s0 (snd k) = None \/ mem_addr (snd k) (s_dirty s0) = true ->
-                   forall s1' c1' b1' n1' rec1',
-                   gc_evict_ci cat s c b n rest recycled = (s1', c1', b1', n1', rec1') ->
+        assert (W : forall c', P c' rest -> forall s1' c1' b1' n1' rec1',
+                   gc_evict_ci cat s c' b n rest recycled = (s1', c1', b1', n1', rec1') ->
                    s_data s1' = s_data s0 /\ pin_get s1' a = pin_get s a /\
                    (exists nb, b1' = b ++ nb /\ forallb (wkeeps a) nb = true) /\ P c1' [] /\
                    (forall kc, In kc rec1' -> In kc recycled \/ In kc ((k, g) :: rest))).
-        { intros Hskip s1' c1' b1' n1' rec1' H'. apply IH in H' as (A1 & A2 & A3 & A4 & A5); auto.
-          - repeat split; auto. intros kc Hk. destruct (A5 kc Hk); [now left | right; now right].
-          - eapply P_skip; eauto. }
+        { intros c' HP' s1' c1' b1' n1' rec1' H'. apply IH in H' as (A1 & A2 & A3 & A4 & A5); auto.
+          repeat split; auto. intros kc Hk. destruct (A5 kc Hk); [now left | right; now right]. }
         rewrite Et in H.
-        destruct (trav cat s0 (snd k)) as [sh|] eqn:E; [|exact (W (or_introl eq_refl) _ _ _ _ _ H)].
-        rewrite Hy in H. destruct (mem_addr (snd k) (s_dirty s0)) eqn:Edirty; [exact (W (or_intror eq_refl) _ _ _ _ _ H)|].
+        destruct (trav cat s0 (snd k)) as [sh|] eqn:E; [|exact (W c (P_none c k g rest HP E) _ _ _ _ _ H)].
+        rewrite Hy in H. destruct (mem_addr (snd k) (s_dirty s0)) eqn:Edirty;
+          [exact (W _ (P_dirty c k g rest sh HP E Edirty) _ _ _ _ _ H)|].
         destruct (P_evict c k g rest sh HP E Edirty) as [Hnot HP'].
-        destruct (gc_chunks s b 0 (unrepeat c sh)) as [[s' b'] m] eqn:Eg.
+        destruct (gc_chunks s b 0 (unrepeat (register_ci c (snd k) sh) sh)) as [[s' b'] m] eqn:Eg.
         apply gc_chunks_frame in Eg as (D & Y & _ & _ & F).
         destruct (F a Hnot) as [Fp [nb [Fb Fk]]].
         apply IH in H as (A1 & A2 & [nb2 [A3 A3']] & A4 & A5); [|congruence|congruence|exact HP'].
@@ -63,18 +64,20 @@ Section Gc.
 
   (** the whole second phase *)
   Lemma gc_end_keeps (a : addr) (P : cistate -> list (gckey * N) -> Prop) x x' o ctx :
-    (forall c k g rest, P c ((k, g) :: rest) ->
-       trav cat (ls x) (snd k) = None \/ mem_addr (snd k) (s_dirty (ls x)) = true -> P c rest) ->
+    (forall c k g rest, P c ((k, g) :: rest) -> trav cat (ls x) (snd k) = None -> P c rest) ->
+    (forall c k g rest sh, P c ((k, g) :: rest) ->
+       trav cat (ls x) (snd k) = Some sh -> mem_addr (snd k) (s_dirty (ls x)) = true -> P (register_ci c (snd k) sh) rest) ->
     (forall c k g rest sh, P c ((k, g) :: rest) ->
        trav cat (ls x) (snd k) = Some sh -> mem_addr (snd k) (s_dirty (ls x)) = false ->
-       ~ In a (map fst (unrepeat c sh)) /\ P (del_root_cid c (snd k) sh) rest) ->
+       ~ In a (map fst (unrepeat (register_ci c (snd k) sh) sh)) /\
+       P (del_root_cid (register_ci c (snd k) sh) (snd k) sh) rest) ->
     gc_end_ci cat x = (x', o) -> s_gcrun (ls x) = Some ctx ->
     P (ci x) (g_cands ctx) -> ~ In a (cand_roots (g_cands ctx)) ->
     data_get (ls x') a = data_get (ls x) a /\ pin_get (ls x') a = pin_get (ls x) a /\ P (ci x') [].
   Proof.
-    intros Pskip Pev H Hrun HP Hroot. unfold gc_end_ci in H. rewrite Hrun in H.
+    intros Pnone Pdirty Pev H Hrun HP Hroot. unfold gc_end_ci in H. rewrite Hrun in H.
     destruct (gc_evict_ci cat (ls x) (ci x) [] 0 (g_cands ctx) []) as [[[[s1 c1] b1] n] recycled] eqn:E.
-    apply (evict_loop a (ls x) P Pskip Pev) in E as (A1 & A2 & [nb [A3 A3']] & A4 & A5); auto.
+    apply (evict_loop a (ls x) P Pnone Pdirty Pev) in E as (A1 & A2 & [nb [A3 A3']] & A4 & A5); auto.
     inversion H; subst x' o; clear H. cbn [ls ci]. simpl in A3. subst b1.
     assert (K : forallb (wkeeps a)
               ((nb ++ flat_map (fun kc : gckey * N => [WDataDel (snd (fst kc)); WAccessDel (snd (fst kc)); WGcDel (fst kc)]) recycled)
@@ -104,6 +107,7 @@ Section Gc.
     intros H Hrun Hout Hroot.
     destruct (gc_end_keeps a (outside a) x x' o ctx) as (A & B & _); auto.
     - intros c k g rest HP _ r sh Hr. apply HP. now right.
+    - intros c k g rest sh HP _ _ r sh' Hr. apply HP. now right.
     - intros c k g rest sh HP Et _. split.
       + intros Hin. apply in_map_iff in Hin as [[a' n] [E Hin]]. simpl in E. subst a'.
         apply In_unrepeat in Hin as [Hin _]. apply trav_cat in Et. exact (HP (snd k) sh (or_introl eq_refl) Et Hin).
@@ -111,49 +115,37 @@ Section Gc.
   Qed.
 
   (** *** instance 2: the protection by the reference counts *)
-
-  (** every candidate whose pyramid can be read and that is not dirty is REGISTERED
-      when its turn comes (decidable; evaluated on the store at the start of the phase) *)
-  Fixpoint gc_guard (s : state) (c : cistate) (cands : list (gckey * N)) : Prop :=
-    match cands with
-    | [] => True
-    | (k, _) :: rest =>
-        match trav cat s (snd k) with
-        | None => gc_guard s c rest
-        | Some sh =>
-            if mem_addr (snd k) (s_dirty s) then gc_guard s c rest
-            else registered c (snd k) = true /\ gc_guard s (del_root_cid c (snd k) sh) rest
-        end
-    end.
-
-  Definition protected (s : state) (rb : addr) (c : cistate) (cands : list (gckey * N)) : Prop :=
-    RC cat c /\ registered c rb = true /\ gc_guard s c cands /\ ~ In rb (cand_roots cands).
+  Definition protected (rb : addr) (c : cistate) (cands : list (gckey * N)) : Prop :=
+    RC cat c /\ registered c rb = true /\ ~ In rb (cand_roots cands).
 
   Lemma gc_end_protects a rb shb x x' o ctx :
     gc_end_ci cat x = (x', o) -> s_gcrun (ls x) = Some ctx ->
-    RC cat (ci x) -> gc_guard (ls x) (ci x) (g_cands ctx) ->
+    RC cat (ci x) ->
     registered (ci x) rb = true -> cat_get cat rb = Some shb -> ~ In rb (cand_roots (g_cands ctx)) ->
     In a (cidset shb) -> ~ In a (cand_roots (g_cands ctx)) ->
     data_get (ls x') a = data_get (ls x) a /\ pin_get (ls x') a = pin_get (ls x) a /\
     RC cat (ci x') /\ registered (ci x') rb = true.
   Proof.
-    intros H Hrun Hrc Hg Hreg Hcat Hnc Hin Hroot.
-    destruct (gc_end_keeps a (protected (ls x) rb) x x' o ctx) as (A & B & (C1 & C2 & _)); auto.
-    - intros c k g rest (P1 & P2 & P3 & P4) Hskip. split; [exact P1|]. split; [exact P2|]. split.
-      + simpl in P3. destruct Hskip as [E|E]; rewrite E in P3; [exact P3|].
-        destruct (trav cat (ls x) (snd k)); exact P3.
-      + intros Hr. apply P4. now right.
-    - intros c k g rest sh (P1 & P2 & P3 & P4) Et Ed. simpl in P3. rewrite Et, Ed in P3. destruct P3 as [Pr Pg].
+    intros H Hrun Hrc Hreg Hcat Hnc Hin Hroot.
+    destruct (gc_end_keeps a (protected rb) x x' o ctx) as (A & B & (C1 & C2 & _)); auto.
+    - intros c k g rest (P1 & P2 & P4) _. split; [exact P1|]. split; [exact P2|].
+      intros Hr. apply P4. now right.
+    - intros c k g rest sh (P1 & P2 & P4) Et _. pose proof (trav_cat cat _ _ _ Et) as Ec.
+      split; [now apply RC_register_ci|]. split; [now apply registered_register_mono|].
+      intros Hr. apply P4. now right.
+    - intros c k g rest sh (P1 & P2 & P4) Et Ed.
       assert (Hne : snd k <> rb) by (intros E; apply P4; left; exact E).
       pose proof (trav_cat cat _ _ _ Et) as Ec.
+      assert (R0 : RC cat (register_ci c (snd k) sh)) by now apply RC_register_ci.
+      assert (R1 : registered (register_ci c (snd k) sh) (snd k) = true) by apply registered_register_same.
+      assert (R2 : registered (register_ci c (snd k) sh) rb = true) by now apply registered_register_mono.
       split.
       + intros Hi. apply in_map_iff in Hi as [[a' n] [E Hi]]. simpl in E. subst a'.
-        exact (unrepeat_protects cat c (snd k) rb sh shb a n P1 Hne Pr P2 Ec Hcat Hin Hi).
-      + split; [|split; [|split]].
+        exact (unrepeat_protects cat _ (snd k) rb sh shb a n R0 Hne R1 R2 Ec Hcat Hin Hi).
+      + split; [|split].
         * now apply (RC_del_root cat).
-        * rewrite registered_del_other; [exact P2 | intros E; now apply Hne].
-        * exact Pg.
+        * rewrite registered_del_other; [exact R2 | intros E; now apply Hne].
         * intros Hr. apply P4. now right.
-    - split; [exact Hrc|]. split; [exact Hreg|]. split; [exact Hg | exact Hnc].
+    - split; [exact Hrc|]. split; [exact Hreg | exact Hnc].
   Qed.
 End Gc.
